@@ -214,7 +214,13 @@ class RealSession:
             self.raise_left = int(t[1])
         elif k == "setmid":
             # fast-forward of the id generator: stands for the allocations made in between
-            c._last_mid = int(t[1]) % 65536
+            if t[1] == "live":
+                mids = list(c._out_messages.keys())
+                if mids:
+                    m = mids[int(t[2]) % len(mids)]
+                    c._last_mid = 65535 if m <= 1 else m - 1
+            else:
+                c._last_mid = (max([c._last_mid] + list(c._out_messages.keys())) // 1000 + 1) * 1000 % 65000
         else:
             raise ValueError("bad op " + k)
 
@@ -387,18 +393,12 @@ def _next_op(rng, sh):
         return "loop_misc"
     # connected
     if sh.out and rng.random() < 0.02:
-        # the id generator comes round to a packet id that is still in use (65535 allocations later)
-        m = rng.choice(list(sh.out))
-        keep = dict(sh.out)
-        sh.mid = (m - 2) % 65535 + 1
-        # ... and afterwards moves on past every id in use (a QoS 0 publish may legitimately reuse a live id; the
-        # monitors, which tell messages apart by id, are not exercised on that)
-        top = max(sh.out)
-        sh.pending = [_publish(rng, sh, qos=rng.choice([1, 2])), f"setmid {top}"]
-        sh.out.clear()
-        sh.out.update(keep)      # the colliding publish is refused: the old message keeps its id
-        sh.mid = top
-        return f"setmid {(m - 2) % 65535 + 1}"
+        # the id generator comes round to a packet id that is still in use (65535 allocations later): the next QoS 1/2
+        # publish must be refused; afterwards the run carries on in a block of ids nothing has used yet
+        q = rng.choice([1, 2])
+        t_ = rng.choice(TOPICS)
+        sh.pending = [f"publish {q} {hx(t_)} {hx(bytes([rng.randrange(256)]))} 0", "setmid fresh 0"]
+        return f"setmid live {rng.randrange(8)}"
     if sh.out and rng.random() < 0.03:
         # a transport failure / stall exactly when the client answers an acknowledgement (PUBREL after PUBREC ...),
         # then the connection is re-established
